@@ -412,6 +412,11 @@ func runWorkers(b build, prop string, seed uint64, runs int, budget float64, wor
 			limit := time.Duration(budget*3+120) * time.Second
 			select {
 			case err := <-done:
+				if err != nil && b.race && workerCompleted(out) {
+					// the testing package fails a test in whose process the race detector reported
+					// something; the reports are collected from the GORACE log, the runs are complete
+					err = nil
+				}
 				if err != nil {
 					mu.Lock()
 					failed = append(failed, fmt.Sprintf("worker %d: %v\n%s", i, err, tail(string(outb), 60)))
@@ -430,6 +435,15 @@ func runWorkers(b build, prop string, seed uint64, runs int, budget float64, wor
 		fatal2("worker trouble (tooling, not a violation):\n%s", strings.Join(failed, "\n"))
 	}
 	return files
+}
+
+// workerCompleted reports whether the worker wrote its final line.
+func workerCompleted(out string) bool {
+	data, err := os.ReadFile(out)
+	if err != nil {
+		return false
+	}
+	return strings.Contains(string(data), "\"worker_done\":true")
 }
 
 func tail(s string, n int) string {
